@@ -1176,6 +1176,9 @@ pub(crate) fn check_continuous_headers(headers: &[HeaderView]) -> Result<(), Sta
     Ok(())
 }
 
+// No chain reaches this height; MMR positions up to it can be calculated without overflow.
+const MAX_PROVABLE_BLOCK_NUMBER: BlockNumber = BlockNumber::MAX / 4;
+
 pub(crate) fn verify_mmr_proof<'a, T: Iterator<Item = &'a HeaderView>>(
     mmr_activated_epoch: EpochNumber,
     last_header: &VerifiableHeader,
@@ -1197,8 +1200,38 @@ pub(crate) fn verify_mmr_proof<'a, T: Iterator<Item = &'a HeaderView>>(
         return Err(StatusCode::InvalidProof.with_context(errmsg));
     };
     let parent_chain_root = last_header.parent_chain_root();
+    // All numbers are provided by the peer: check everything which is added up, or used as
+    // an index of the MMR, before the MMR library (which aborts on overflow) sees it.
+    let chain_root_end_number: BlockNumber = parent_chain_root.end_number().unpack();
+    let mut total_difficulty = U256::zero();
+    {
+        // The parent chain root of a block covers all blocks before it.
+        if last_header.header().number().checked_sub(1) != Some(chain_root_end_number)
+            || chain_root_end_number > MAX_PROVABLE_BLOCK_NUMBER
+        {
+            let errmsg = format!(
+                "failed since the parent chain root of block-{} ends at block-{}",
+                last_header.header().number(),
+                chain_root_end_number
+            );
+            return Err(StatusCode::InvalidProof.with_context(errmsg));
+        }
+        // A valid proof is a partition of the chain root: the difficulties of its items and of
+        // the proved blocks sum up to the difficulty of the chain root.
+        for digest in raw_proof.iter() {
+            let end_number: BlockNumber = digest.end_number().unpack();
+            let difficulty: U256 = digest.total_difficulty().unpack();
+            total_difficulty = match total_difficulty.checked_add(&difficulty) {
+                Some(sum) if end_number <= chain_root_end_number => sum,
+                _ => {
+                    let errmsg = "failed since a proof item is beyond the chain root";
+                    return Err(StatusCode::InvalidProof.with_context(errmsg));
+                }
+            };
+        }
+    }
     let proof: MMRProof = {
-        let mmr_size = leaf_index_to_mmr_size(parent_chain_root.end_number().unpack());
+        let mmr_size = leaf_index_to_mmr_size(chain_root_end_number);
         let proof = raw_proof
             .iter()
             .map(|header_digest| header_digest.to_entity())
@@ -1210,6 +1243,12 @@ pub(crate) fn verify_mmr_proof<'a, T: Iterator<Item = &'a HeaderView>>(
         let res = headers
             .map(|header| {
                 let index = header.number();
+                if index > chain_root_end_number {
+                    return Err(format!(
+                        "block-{} is not in the chain root which ends at block-{}",
+                        index, chain_root_end_number
+                    ));
+                }
                 let position = leaf_index_to_pos(index);
                 let digest = header.digest();
                 digest.verify()?;
@@ -1224,6 +1263,16 @@ pub(crate) fn verify_mmr_proof<'a, T: Iterator<Item = &'a HeaderView>>(
             }
         }
     };
+    for (_, digest) in &digests_with_positions {
+        let difficulty: U256 = digest.total_difficulty().unpack();
+        total_difficulty = match total_difficulty.checked_add(&difficulty) {
+            Some(sum) => sum,
+            None => {
+                let errmsg = "failed since the total difficulty of the proof is overflowed";
+                return Err(StatusCode::InvalidProof.with_context(errmsg));
+            }
+        };
+    }
     let verify_result = match proof.verify(parent_chain_root, digests_with_positions) {
         Ok(verify_result) => verify_result,
         Err(err) => {
